@@ -24,7 +24,9 @@ MODULE = "Model.Producer"
 CMODEL = "producercompose"
 CMODULE = "Model.ProducerCompose"
 THEOREMS = ["C01_at_most_once", "C01_resolved_when_quiescent", "C01_success_truthful", "C01_success_none_truthful",
-            "C01_failure_is_failure", "C01_limit_resolves"]
+            "C01_failure_is_failure", "C01_failure_is_failure_own", "C01_limit_resolves", "C01_lookup_quota",
+            "C01_lookup_failure_counts", "C01_composed_truthful", "C01_composed_none_truthful", "C01_no_deadlock",
+            "C01_owed_event_progress", "C01_eventually_resolved", "C01_resolved_within"]
 
 
 # ------------------------------------------------------------------ running one case on the implementation
@@ -274,6 +276,44 @@ def probes1():
     return out
 
 
+def probe_out_of_contract():
+    """results OUTSIDE the contract of send_produce_request (Model.Producer.result_ok) are no-ops in the model and are
+    never generated as events.  What does the code do with them?  Informational only (outside the contract either way):
+    a few such values are fired at the real Producer with a two-payload request in flight; -> {label: observation}"""
+    def probe(acks, v):
+        cfg = dict(acks=acks, batch=True, n=2, b=0, t=None, max=3, api=1, codec=None, retry_interval=0.25, partitioner="scripted",
+                   ntop=1, nparts={0: 3}, cache=[(0, 0, True)], script={PL.make_key(0, False): 0, PL.make_key(1, False): 1})
+        r = PL.replay_run(cfg, [("send", 0, 0, False, [8]), ("send", 1, 0, False, [8])], run_cls=CL.Run1)
+        c = r.client
+        if c.request is None or c.request[0].called:
+            return {"error": "no request in flight"}
+        before = r.snapshot()
+        r.cur = []
+        d = c.request[0]
+        c.request = None
+        exc = None
+        try:
+            r.fire_value(d, v)
+        except Exception as e:  # noqa
+            exc = repr(e)
+        outs = sorted(r.cur)
+        r.cur = None
+        after = r.snapshot()
+        code = {"outcomes": [o for o in outs if o[0] == 7], "other_outputs": [o for o in outs if o[0] != 7],
+                "unresolved_after": after["unresolved"], "busy_after": after["busy"], "exception_in_callback_chain": exc}
+        noop = not outs and after == before and exc is None
+        return {"model": "no-op (result_ok is false: the event is ignored)", "code": code, "code_is_a_no_op_too": noop}
+    vals = [
+        ("response for a partition that was not in the request", 1, ("resp", [(0, 0, 0, 5), (0, 1, 0, 6), (0, 2, 0, 7)])),
+        ("two responses for one partition", 1, ("resp", [(0, 0, 0, 5), (0, 0, 0, 9), (0, 1, 0, 6)])),
+        ("responses although acks=0", 0, ("resp", [(0, 0, 0, 5), (0, 1, 0, 6)])),
+        ("FailedPayloadsError without failed payloads", 1, ("failed", [(0, 0, 0, 5), (0, 1, 0, 6)], [])),
+        ("failed payload that was not in the request", 1, ("failed", [(0, 0, 0, 5), (0, 1, 0, 6)], [(0, 2, PL.K_CONNLOST)])),
+        ("a payload both answered and failed", 1, ("failed", [(0, 0, 0, 5), (0, 1, 0, 6)], [(0, 1, PL.K_CONNLOST)])),
+    ]
+    return {label: probe(acks, v) for (label, acks, v) in vals}
+
+
 def probe_snappy():
     """F-C01-5 on the real code without any scripting: codec=CODEC_SNAPPY accepted by the constructor, python-snappy
     absent -> create_message_set raises inside _send_requests.  Returns None if snappy is installed, else
@@ -462,6 +502,15 @@ def run(ck):
                                          "monitor": bad[:3], "impl_trace": r.trace, "replay_op": "run"})
         pr_runs.append(r)
     check_runs(pr_runs, 1, "driver 1 probes (repaired defects F-C01-1..4, known finding F-C01-5) vs Model.Producer.run_case")
+    # out-of-contract results: the model ignores them, the code does not (informational; outside the contract either way)
+    try:
+        ooc = probe_out_of_contract()
+    except Exception as e:  # noqa
+        ooc = {"error": repr(e)}
+    ck.cov["out_of_contract_results"] = ooc
+    for label, obs in ooc.items():
+        if isinstance(obs, dict) and "code_is_a_no_op_too" in obs:
+            ck.hist("out-of-contract result: code %s" % ("ignores it like the model" if obs["code_is_a_no_op_too"] else "acts on it (model: no-op)"))
 
     # --- 1. composed corpus: directed fault sequences through the real KafkaClient
     dres = directed(ck)
